@@ -10,7 +10,7 @@ import random
 
 from props import _time as T
 
-FEATS = ('send', 'tempo', 'spawn', 'pause', 'rand', 'raise', 'cond', 'stop')
+FEATS = ('send', 'tempo', 'spawn', 'pause', 'rand', 'raise', 'cond', 'stop', 'yr')
 
 
 def sig(mode, tr, at, why):
@@ -36,7 +36,7 @@ def run(ctx):
     # S->C: the bounded program space of TimeModel, enumerated by TLC itself
     sp = spec_programs(ctx, 'TimeModelExport_thorough.cfg' if thorough else 'TimeModelExport.cfg')
     for k, p in enumerate(sp):
-        progs.append(dict(p, id=n + k, tail=0, cls='B'))
+        progs.append(dict(p, id=n + k, tail=0, cls='B', funcs=list(p.get('funcs', []))))
     n += len(sp)
     ctx.cov['spec_enumerated_programs'] = len(sp)
     nrt1 = T.run_mode(ctx, progs, 'nrt', hashseed='0')
